@@ -149,6 +149,14 @@ class Runner(object):
             fh.write(src)
         _bump()
         p = run_tool(self.backend, self.entry, self.out, configs=self.cfg, timeout=TIMEOUT)
+        if p.returncode == -999:
+            # a hang of the tool is deterministic: a timeout only counts when it happens again right away (the machine
+            # this runs on stalls for tens of seconds now and then; such stalls are tallied, not judged)
+            _bump()
+            p2 = run_tool(self.backend, self.entry, self.out, configs=self.cfg, timeout=TIMEOUT)
+            if p2.returncode != -999:
+                _bump("transient-timeout")
+                p = p2
         v = judge(p, self.out, self.fresh)
         _bump(v.kind)
         if v.kind == "ok":
@@ -316,7 +324,7 @@ def settle(rn, items, out, crashes, known=None):
 _red_cache = {}
 
 
-def same_crash(rn, item_or_src, file, nmsg, prune=False, fresh_run=False):
+def same_crash(rn, item_or_src, file, nmsg, fresh_run=False):
     src = item_or_src if isinstance(item_or_src, str) else U.build_source(item_or_src if isinstance(item_or_src, list) else [item_or_src], prune=True)
     ck = (rn.backend, tuple(rn.cfg), src)
     v = None if fresh_run else _red_cache.get(ck)
@@ -504,13 +512,14 @@ def run(tier):
     done = dict((k, []) for k in sites)      # site -> [(coarse part set, class)] of reduced witnesses
     frozen = {}                                # what the second pass may inherit from: the first pass' witnesses only (deterministic)
 
-    def do_group(job):
+    def do_group(job, inherit_from=None):
         (b, file, nmsg), rawc, g = job
         cr = g["first"]
         plain = cr.get("src") is None and "combo" not in cr
         if plain:
             parts = set(U.coarse_parts(by_id[cr["iid"]]))
-            hit = [d for d in frozen.get((b, file, nmsg), []) if d[0] and d[0] <= parts]
+            pool = inherit_from if inherit_from is not None else frozen.get((b, file, nmsg), [])
+            hit = [d for d in pool if d[0] and d[0] <= parts]
             if hit:
                 return ((b, file, nmsg, hit[0][1]), {"inherit": True, "raw": rawc, "g": g})
         rn = Runner(b, g["cfg"], os.path.join(wd, "red_%s_%s" % (b, sha("|".join((file, nmsg, rawc))))))
@@ -534,7 +543,7 @@ def run(tier):
 
     def do_site_head(kv):
         site, groups = kv
-        return [do_group((site, rawc, g)) for rawc, g in sorted(groups, key=rank)[:4]]
+        return [do_group((site, rawc, g), done[site]) for rawc, g in sorted(groups, key=rank)[:4]]     # sequential within a site
 
     stage2 = (_runs[0], round(time.time() - t0, 1))
     # the four smallest groups of every site first (their witnesses label most of the other groups), then all the rest
@@ -600,6 +609,7 @@ def run(tier):
                   "variants": ["%s/%s" % (b, l) for b, l, _ in variants], "missing_config_variants": ["%s/%s" % (b, l) for b, l, _ in MISSING_CONFIG],
                   "batches_skipped_by_wall_budget": len(skipped), "128bit_ints": "excluded"},
         "tool_runs": _runs[0],
+        "timeouts_not_reproduced_on_immediate_rerun": _kinds.get("transient-timeout", 0),
         "per_backend": dict(("%s/%s" % k, v) for k, v in sorted(counts.items())),
         "reached_backend_by_family_and_position": fam_reach,
         "missing_config_outcomes": miss_counts,
@@ -618,7 +628,14 @@ def run(tier):
         "batches are bisected to single-item files",
         "128-bit integers are excluded; `char` (unknown to the AST) only shows up among the lowering panics",
         "special-method attributes are written both as `supports = <feature>` (strictly within declared support) and as `auto` (documented as equivalent)",
-        "a crash key names the structurally reduced item (attribute, return, self, parameters, wrappers dropped / canonicalised while the same panic remains)",
+        "a crash key names the structurally reduced item (attribute, return, self, parameters, wrappers dropped / canonicalised while the same panic remains); "
+        "crashing items are grouped by (backend, panic file, message, coarse shape class), one representative per group is reduced with the real tool, and a "
+        "group whose class contains every part of an already reduced witness of the same panic site is counted under that witness' key",
+        "`exit 0 with files written` is verified on the first successful run into every fresh output directory (one per batch, backend and config variant); "
+        "later runs of the same batch reuse the directory and only their exit status and stderr are read",
+        "a timeout counts only if it happens again on an immediate re-run of the same command (a hang of the tool is deterministic)",
+        "backend diagnostics that name single items (`Type::method`) are attributed to them and the rest of the file is re-run; otherwise the whole file is "
+        "judged `diag`",
     ])
 
 
